@@ -3,7 +3,7 @@
 from hypothesis import strategies as st
 
 from tv.core import Result
-from tv.cyc import Harness, step
+from tv.cyc import Harness, draw_second, second_fold, second_request, step
 from tv.queues import capped_history, check_accept
 
 ID = "C20"
@@ -44,7 +44,8 @@ def strategy(draw, tier="quick"):
     # optional acquire-only prefix (part of the history) so that large maxima are reached in short histories
     pre = [{"acquire": [], "release": None, "clear": None} for _ in range(draw(st.integers(0, max_count)))]
     hist = pre + draw(capped_history(methods, 8, hi, caps={"clear": 2}, profiles=PROFILES))
-    return {"max_count": max_count, "history": hist}
+    second, mask = draw_second(draw, ["acquire", "release"])
+    return {"max_count": max_count, "history": hist, "second": second, "second_mask": mask}
 
 
 def run_case(case) -> Result:
@@ -52,17 +53,24 @@ def run_case(case) -> Result:
 
     mx = case["max_count"]
     res = Result(labels=[f"max{mx}"])
-    h = Harness(lambda: Semaphore(mx))
+    second = case.get("second")
+    h = Harness(lambda: Semaphore(mx), second_callers=(second,) if second else ())
+    if second:
+        res.labels.append("two_callers_of_" + second)
     names = ["acquire", "release", "clear"]
     flags = dict(at_max=False, ar_together=False, ar_at_max=False, clear_acquire=False, clear_release=False)
 
     async def tb(ctx):
-        ios = h.ios(names)
+        ios = h.ios(names + ([second + "_b"] if second else []))
         count = 0
         for cyc, rec in enumerate(case["history"]):
             reqs = {n: {} for n in names if rec.get(n) is not None}
+            second_request(case, reqs, cyc)
             results, (hw_count,) = await step(ctx, ios, reqs, samples=[h.dut.count])
             res.stats["cycles"] = res.stats.get("cycles", 0) + 1
+            msg = second_fold(case, reqs, results)
+            if msg:
+                return res.fail(f"cycle {cyc}: {msg}")
             info = f"(count {count}/{mx})"
             if hw_count != count:
                 return res.fail(f"cycle {cyc}: count register is {hw_count}, acquisitions - releases = {count}")
